@@ -26,7 +26,7 @@ from core.faketransport import FakeStream
 # ------------------------------------------------------------------------------------------------ wire
 def wire_request(req):
     """-> (header block bytes, body bytes, segs) where segs describes how the body is consumed:
-    ["atom", n] = a read that needs all n bytes, ["data", n] = n payload bytes (partial reads),
+    ["line", n] = read_until(CRLF, max_bytes=64) of an n-byte line, ["atom", n] = read_bytes(n), ["data", n] = n payload bytes (partial reads),
     ["err"] = the reader raises HTTPInputError at this point."""
     ver = req["ver"]
     method = req["method"]
@@ -65,7 +65,7 @@ def wire_request(req):
         for n in body[1]:
             szl = b"%x\r\n" % n
             out += szl
-            segs.append(["atom", len(szl)])
+            segs.append(["line", len(szl)])
             if n == 0:      # an explicit 0 inside the list would terminate; generators never produce it
                 break
             out += _payload(n, off)
@@ -75,11 +75,11 @@ def wire_request(req):
             segs.append(["atom", 2])
         if k == "badchunk":
             out += b"zz\r\n"
-            segs.append(["atom", 4])
+            segs.append(["line", 4])
             segs.append(["err"])
         else:
             out += b"0\r\n\r\n"
-            segs.append(["atom", 3])
+            segs.append(["line", 3])
             segs.append(["atom", 2])
         payload = bytes(out)
     else:
@@ -473,6 +473,19 @@ class _Stalled(Exception):
     pass
 
 
+_frozen_pid = None
+
+
+def _freeze_once():
+    """In a forked pool worker the inherited heap holds the whole case list (hundreds of MB in the thorough tier);
+    every full garbage collection would traverse it (seen: pauses of tens of seconds).  Freeze it once per process."""
+    global _frozen_pid
+    import gc, os
+    if _frozen_pid != os.getpid():
+        gc.freeze()
+        _frozen_pid = os.getpid()
+
+
 def _run_once(case):
     with _Quiet():
         with vloop.installed() as lp:
@@ -484,6 +497,7 @@ def run_case(case, app_factory=None):
     a stalled attempt is abandoned after 40 s and the case is run again from scratch (it is deterministic), the
     last attempt under the runner's own watchdog only — a genuine non-termination is still reported by the runner."""
     import signal
+    _freeze_once()
     for _ in range(3):
         def on_alarm(signum, frame):
             raise _Stalled()
@@ -491,7 +505,7 @@ def run_case(case, app_factory=None):
             old_handler = signal.signal(signal.SIGALRM, on_alarm)
         except ValueError:          # not in the main thread: no inner watchdog
             return _run_once(case)
-        old_left, _ = signal.setitimer(signal.ITIMER_REAL, 40)
+        old_left, _ = signal.setitimer(signal.ITIMER_REAL, 40, 1)   # repeats: an exception raised inside a GC callback is swallowed
         try:
             return _run_once(case)
         except _Stalled:
